@@ -36,25 +36,54 @@ func scopeNum(s defn.Scope) int {
 	return -1
 }
 
-// non-loopback unicast addresses of this host (global IPv4/IPv6; link-local ones need a zone and are skipped)
-func ownAddrs() []net.IP {
-	res := []net.IP{}
-	addrs, _ := net.InterfaceAddrs()
-	for _, a := range addrs {
-		if ipn, ok := a.(*net.IPNet); ok {
-			ip := ipn.IP
-			if ip.IsLoopback() || ip.IsLinkLocalUnicast() || ip.IsMulticast() || ip.IsUnspecified() {
-				continue
+// ownAddr is a non-loopback unicast address of this host; link-local IPv6 addresses carry the interface as zone
+type ownAddr struct {
+	ip   net.IP
+	zone string
+}
+
+func (a ownAddr) host() string {
+	if a.zone != "" {
+		return a.ip.String() + "%" + a.zone
+	}
+	return a.ip.String()
+}
+
+func ownAddrs() []ownAddr {
+	res := []ownAddr{}
+	ifs, _ := net.Interfaces()
+	for _, ifc := range ifs {
+		addrs, _ := ifc.Addrs()
+		for _, a := range addrs {
+			if ipn, ok := a.(*net.IPNet); ok {
+				ip := ipn.IP
+				if ip.IsLoopback() || ip.IsMulticast() || ip.IsUnspecified() {
+					continue
+				}
+				if ip.IsLinkLocalUnicast() {
+					if ip.To4() == nil {
+						res = append(res, ownAddr{ip, ifc.Name})
+					}
+					continue
+				}
+				res = append(res, ownAddr{ip, ""})
 			}
-			res = append(res, ip)
 		}
 	}
 	return res
 }
 
-func hostPort(ip net.IP, port int) string {
-	return net.JoinHostPort(ip.String(), fmt.Sprint(port))
+func hostPort(host string, port int) string {
+	return net.JoinHostPort(host, fmt.Sprint(port))
 }
+
+// fixedRemote is a connection that reports a chosen remote address (the transports only ask the connection for it)
+type fixedRemote struct {
+	net.Conn
+	remote net.Addr
+}
+
+func (c fixedRemote) RemoteAddr() net.Addr { return c.remote }
 
 func TestScope(t *testing.T) {
 	outp := os.Getenv("VERIF_OUT")
@@ -78,8 +107,11 @@ func TestScope(t *testing.T) {
 		ip   string
 		loop bool
 	}
-	table := []addr{{"127.0.0.1", true}, {"127.8.9.10", true}, {"::1", true},
-		{"192.0.2.7", false}, {"10.0.0.1", false}, {"198.51.100.23", false}, {"2001:db8::1", false}, {"fd00::99", false}, {"8.8.8.8", false}}
+	// systematic remote addresses: IPv4 loopback / private / documentation / public, IPv6 loopback / global / unique-local,
+	// IPv4-mapped IPv6 (loopback and not), link-local IPv6 with a zone
+	table := []addr{{"127.0.0.1", true}, {"127.8.9.10", true}, {"::1", true}, {"::ffff:127.0.0.1", true},
+		{"192.0.2.7", false}, {"10.0.0.1", false}, {"192.168.1.1", false}, {"198.51.100.23", false}, {"8.8.8.8", false},
+		{"2001:db8::1", false}, {"fd00::99", false}, {"::ffff:192.0.2.7", false}, {"fe80::1%eth0", false}, {"fe80::fc:ff:fe00:9%lo", false}}
 	own := ownAddrs()
 
 	// 0: MakeUnicastTCPTransport (outgoing TCP; the constructor does not dial)
@@ -104,15 +136,16 @@ func TestScope(t *testing.T) {
 	}
 
 	// 1: AcceptUnicastTCPTransport (real connections inside this process)
-	accept := func(ip net.IP, loop bool) {
-		ln, err := net.Listen("tcp", hostPort(ip, 0))
+	accept := func(ip net.IP, zone string, loop bool) {
+		host := ownAddr{ip, zone}.host()
+		ln, err := net.Listen("tcp", hostPort(host, 0))
 		if err != nil {
-			note("listen tcp %s: %v", ip, err)
+			note("listen tcp %s: %v", host, err)
 			return
 		}
 		defer ln.Close()
 		// the client binds to the same address so that the accepted connection's remote address is that address
-		d := net.Dialer{LocalAddr: &net.TCPAddr{IP: ip}}
+		d := net.Dialer{LocalAddr: &net.TCPAddr{IP: ip, Zone: zone}}
 		c, err := d.Dial("tcp", ln.Addr().String())
 		if err != nil {
 			note("dial tcp %s: %v", ip, err)
@@ -132,11 +165,11 @@ func TestScope(t *testing.T) {
 		}
 		emit(1, loop, tr.Scope(), "AcceptUnicastTCPTransport", "tcp://"+sc.RemoteAddr().String())
 	}
-	accept(net.ParseIP("127.0.0.1"), true)
-	accept(net.ParseIP("127.8.9.10"), true)
-	accept(net.ParseIP("::1"), true)
-	for _, ip := range own {
-		accept(ip, false)
+	accept(net.ParseIP("127.0.0.1"), "", true)
+	accept(net.ParseIP("127.8.9.10"), "", true)
+	accept(net.ParseIP("::1"), "", true)
+	for _, a := range own {
+		accept(a.ip, a.zone, false)
 	}
 
 	// 2: MakeUnicastUDPTransport (connects a datagram socket; nothing is sent)
@@ -199,49 +232,38 @@ func TestScope(t *testing.T) {
 		emit(3, true, tr.Scope(), "MakeUnixStreamTransport", remote.String())
 	}()
 
-	// 4: NewWebSocketTransport (real WebSocket handshakes inside this process)
-	ws := func(ip net.IP, loop bool) {
-		var tr *face.WebSocketTransport
-		done := make(chan struct{})
+	// 4: NewWebSocketTransport: a real WebSocket handshake inside this process (over loopback); the connection handed to the
+	// constructor reports the remote address under test (the constructor only asks the connection for its RemoteAddr)
+	ws := func(remote *net.TCPAddr, loop bool) {
 		up := websocket.Upgrader{CheckOrigin: func(*http.Request) bool { return true }}
-		srv := httptest.NewUnstartedServer(http.HandlerFunc(func(rw http.ResponseWriter, r *http.Request) {
-			defer close(done)
-			c, err := up.Upgrade(rw, r, nil)
-			if err != nil {
-				return
+		srv := httptest.NewServer(http.HandlerFunc(func(rw http.ResponseWriter, r *http.Request) {
+			if c, err := up.Upgrade(rw, r, nil); err == nil {
+				defer c.Close()
+				c.ReadMessage()
 			}
-			lu, _ := url.Parse("ws://" + r.Host)
-			tr = face.NewWebSocketTransport(defn.MakeWebSocketServerFaceURI(lu), c)
 		}))
-		ln, err := net.Listen("tcp", hostPort(ip, 0))
-		if err != nil {
-			note("listen ws %s: %v", ip, err)
-			return
-		}
-		srv.Listener.Close()
-		srv.Listener = ln
-		srv.Start()
 		defer srv.Close()
-		d := websocket.Dialer{NetDial: func(network, addr string) (net.Conn, error) {
-			return (&net.Dialer{LocalAddr: &net.TCPAddr{IP: ip}}).Dial(network, addr)
-		}}
-		c, _, err := d.Dial("ws://"+ln.Addr().String()+"/", nil)
+		raw, err := net.Dial("tcp", srv.Listener.Addr().String())
 		if err != nil {
-			note("dial ws %s: %v", ip, err)
+			note("dial ws: %v", err)
 			return
 		}
-		defer c.Close()
-		<-done
-		if tr == nil {
-			note("NewWebSocketTransport %s: upgrade failed", ip)
+		defer raw.Close()
+		u, _ := url.Parse("ws://" + srv.Listener.Addr().String() + "/")
+		c, _, err := websocket.NewClient(fixedRemote{raw, remote}, u, nil, 1024, 1024)
+		if err != nil {
+			note("websocket handshake: %v", err)
 			return
 		}
-		emit(4, loop, tr.Scope(), "NewWebSocketTransport", "wsclient://"+ip.String())
+		tr := face.NewWebSocketTransport(defn.MakeWebSocketServerFaceURI(u), c)
+		emit(4, loop, tr.Scope(), "NewWebSocketTransport", "wsclient://"+remote.String())
 	}
-	ws(net.ParseIP("127.0.0.1"), true)
-	ws(net.ParseIP("::1"), true)
-	for _, ip := range own {
-		ws(ip, false)
+	for _, a := range table {
+		ip, zone := a.ip, ""
+		if i := strings.Index(ip, "%"); i >= 0 {
+			ip, zone = ip[:i], ip[i+1:]
+		}
+		ws(&net.TCPAddr{IP: net.ParseIP(ip), Port: 40000, Zone: zone}, a.loop)
 	}
 
 	// 5: MakeInternalTransport, 7: MakeNullTransport (no remote address: both rows of the table)
@@ -253,7 +275,8 @@ func TestScope(t *testing.T) {
 	emit(7, false, nt.Scope(), "MakeNullTransport", "null://")
 
 	// 6: MakeMulticastUDPTransport on every own IPv4 address (joins the NDN multicast group; skipped if the host cannot)
-	for _, ip := range own {
+	for _, a := range own {
+		ip := a.ip
 		if ip.To4() == nil {
 			continue
 		}
